@@ -41,7 +41,7 @@ claim("C17", "exploration", "metamorphic property-based testing of normalize_smi
       "Stereo-free reactions incl. reactions built from anagram isomer groups mined from the corpus: all molecule permutations (<=4 per side) and drawn respellings must normalise identically (idempotently) and score similarity exactly 1 under the three methods; random pairs must give symmetric values in [0,1].",
       TB, "DESIGN.md 4/C17")
 claim("C19", "exploration", "model-based testing of RuleImputeManager over operation histories: exhaustive short histories, Hypothesis histories to length 30, hypothesis.stateful machine; ordered-list reference model + composition oracle",
-      "ALL histories of length <=3 (empty start; <=2 for shipped starts in quick) over a 14-compound alphabet with add / bulk-add / remove, random histories to length 30 and a RuleBasedStateMachine, each step compared with an ordered-list model and the oracle composition. Shipped duplicate records are a listed known finding (K19).",
+      "ALL histories of length <=3 (empty start; <=2 for shipped starts in quick) over a 16-compound alphabet with add / bulk-add / remove, random histories to length 30 and a RuleBasedStateMachine, each step compared with an ordered-list model and the oracle composition. Shipped duplicate records are a listed known finding (K19).",
       TB + "; uniqueness = string identity as the manager claims", "DESIGN.md 4/C19")
 claim("C20", "exploration", "property-based testing of MoleculeStandardizer with composition / parse / idempotence oracles on enol- and hemiketal-enriched molecules",
       "Every corpus molecule (third in quick, all in thorough), all rooted spellings of 45 hand-built enol/hemiketal/ortho-acid/enolate/metal-alkoxide seeds and Hypothesis-built molecules with several such groups and mixtures must standardise without exception to a parsable SMILES of identical composition and charge, idempotently; a sample is repeated under other PYTHONHASHSEED values (fgutils group detection depends on it).",
